@@ -5,6 +5,8 @@ CONSTANTS VrfLen = 64
           MAXE = 240
           MAXC = 240
           Tables = {}
+          NewTables = {}
+          SeedBytes = {}
 CONSTRAINT HighWater
 POSTCONDITION Accepted
 CHECK_DEADLOCK FALSE
